@@ -122,6 +122,8 @@ def qsbr_oracle(p, s, cl, raw):
 def oracle(p, s, cl, raw):
     m = re.search(r'^LITMUS.*$', raw, flags=re.M)
     if m: return m.group(0)
+    m = re.search(r'^- bp live slots (\d+)', raw, flags=re.M)
+    if m and m.group(1) != '0': return 'bp: %s reader slot(s) still allocated after every thread has exited (a thread was registered twice, or its slot was not released)' % m.group(1)
     return timing_oracle(raw)
 
 def canon(raw):
